@@ -106,7 +106,37 @@ def check_C03(c):
     c.rep.assumptions = ["invalid permutations are left open at Level 1 (their rejection is checked under C13)"]
 
 
-CHECKS = {"C01": check_C01, "C02": check_C02, "C03": check_C03}
+def check_C04(c):
+    q = c.quick
+    inv = ["TypeOK", "CopiesDisjoint", "ViewAliases", "Emit"]
+    W = {S(x) for x in ("Memset", "Zero", "UnsafeUn", "UnsafeBinK", "SetSweep", "SetAt", "Copy", "UnsafeBinT")}
+    C = {S(x) for x in ("Clone", "Materialize", "SafeT", "CopyInto", "CopyTo", "Native", "Mat64")}
+    jobs = [("views-1", dict(MinRank=1, MaxRank=3, MaxDim=3, MaxDimHi=2 if q else 3, HiRank=3, Ctors={S("C"), S("F")}, ViewDepth=1,
+                             RichPalette=not q, Writes=W, Copies=C))]
+    jobs.append(("views-2", dict(MinRank=2, MaxRank=2 if q else 3, MaxDim=3, MaxDimHi=2, HiRank=3, Ctors={S("C")}, ViewDepth=2,
+                                 RichPalette=False, Writes=W, Copies=C if not q else {S("Clone"), S("Materialize"), S("CopyInto")})))
+    if not q:
+        jobs.append(("views-r4", dict(MinRank=4, MaxRank=4, MaxDim=2, MaxDimHi=2, HiRank=4, Ctors={S("C")}, ViewDepth=1,
+                                      RichPalette=False, Writes=W, Copies=C)))
+    for name, k in jobs:
+        cfgp = c.scr.path(name + ".cfg")
+        write_cfg(cfgp, consts=k, invariants=inv, properties=["Frame"])
+        cases = c.scr.path(name + ".cases.ndjson")
+        r = run_tlc(c.scr, "MC_views", cfgp, cases)
+        c.rep.add_tlc(name, r)
+        log("TLC %s: %d distinct, %d cases, %.1fs" % (name, r.distinct, r.cases, r.wall))
+        c.replay(name, cases, dtypes="all", pals="ident", rotate=3 if q else 0)
+    c.rep.rule = ("TLC enumerates every view obtainable by <=2 slice/transpose steps from shapes of rank 1-4 (row- and column-major "
+                  "parents) x every whole-tensor write {Memset, Zero, unsafe unary, unsafe binary with scalar and with a fresh tensor, "
+                  "Copy into the view, SetAt sweep, single SetAt through parent and view} and every copy {Clone, Materialize, SafeT, "
+                  "Copy, CopyTo, native.*, ToMat64/FromMat64} followed by probe writes on both sides; every parent cell holds its own "
+                  "distinct sentinel, and after each behaviour EVERY live tensor and the complete caller backing is compared with the "
+                  "specification's heap (the frame is the TLC action property Frame)")
+    c.rep.assumptions = ["CopyTo may refuse views and mixed layouts (documented); native conversions may refuse non-contiguous tensors",
+                         "storage of library-allocated copies is observed only through At (disjointness by probe writes)"]
+
+
+CHECKS = {"C01": check_C01, "C02": check_C02, "C03": check_C03, "C04": check_C04}
 
 HOOK_COMMITS = []
 NOT_YET = {}
@@ -119,6 +149,10 @@ LEVELS = {
             "technique": "TLC-enumerated transposition programs (MC_trans) replayed in the default and inplacetranspose builds",
             "text": "bounded exhaustive model checking: all programs over T/UT/Transpose/Materialize/SafeT/RollAxis up to length 2-4 for every shape and permutation in bounds, on contiguous, sliced and column-major sources, in two builds and six element sizes; storage order after physical moves is observed through the caller's backing",
             "note": "bounded (rank<=5, dims<=3, length<=4); the algebraic laws of the oracle (composition, inverse, pending consistency) are TLC invariants"},
+    "C04": {"ref": "DESIGN.md 4 C04",
+            "technique": "TLC-enumerated view/write/copy behaviours (MC_views, action property Frame) replayed on the real library",
+            "text": "bounded exhaustive model checking: every view in bounds x every whole-tensor write and copy operation; the specification's heap frame is an action property checked by TLC, and the real library's complete backing storage plus every live tensor is compared with the specification's heap after each behaviour",
+            "note": "bounded (rank<=4, dims<=3, views of <=2 steps); sentinel = pairwise distinct cell values"},
     "C01": {"ref": "DESIGN.md 4 C01",
             "technique": "TLC-enumerated behaviours of the TLA+ tensor machine (MC_addr) replayed on the real library",
             "text": "bounded exhaustive model checking: TLC enumerates every shape/constructor/layout in bounds and the complete coordinate->cell table of each; every table entry is executed (At and SetAt) on the real tensor for every element type, with a full snapshot of all storage around each write",
